@@ -9,7 +9,7 @@ generate_facts = extract_facts.generate
 
 ID = "C13"
 LEAN_MODULES = ["Econf.Props.C13", "Econf.Props.Struct"]
-THEOREMS = ["Econf.C13_section_codes", "Econf.C13_section_line", "Econf.C13_nodelim_line", "Econf.C13_first_error", "Econf.C13_error_range", "Econf.Struct.C13_messages", "Econf.C13_after_conventional"]
+THEOREMS = ["Econf.C13_section_codes", "Econf.C13_section_line", "Econf.C13_nodelim_line", "Econf.C13_first_error", "Econf.C13_error_range", "Econf.Struct.C13_messages", "Econf.C13_after_conventional", "Econf.C13_location_file", "Econf.C13_location_seq", "Econf.C13_location_first", "Econf.C13_location_history", "Econf.C13_layered_line"]
 RULE = ("conventional documents with one injected malformed line of each kind (no closing bracket, text after bracket, empty section "
         "name, key and text without delimiter) at every kind of position, followed by arbitrary lines; alone and as a member of a "
         "layered tree; plus missing files and the message of every code -1..30; distinct by (file content, kind, position)")
@@ -75,8 +75,11 @@ def make(rng, sid, hist):
 
 def tree_make(rng, sid):
     """a malformed file as the k-th consulted file of a layered read"""
-    shape = rng.choice(["project", "noproject", "readdirs", "parsingdirs"])
+    shape = rng.choice(["project", "noproject", "readdirs", "parsingdirs", "configdirs", "setconfdirs"])
     p = gen_tree.shape_params(rng, shape)
+    # the parse options of the caller's object must not change what a malformed line does
+    if p["call"][0] == "RC" and rng.random() < 0.4:
+        p["slot_pre"] = b";".join(([p["slot_pre"]] if p["slot_pre"] else []) + [b"JOIN_SAME_ENTRIES=1"])
     tg = gen_tree.Tagger()
     t = gen_tree.random_tree(rng, p["dirs"], p["name"], p["dsfx"], p["postfixes"], tg)
     files = [i for i, f in enumerate(t.files) if f[1] == "file"]
